@@ -266,7 +266,9 @@ fn utils_roundtrip(out: &mut Out, bytes: &[u8], src: &str) {
     let (t, dbg, regen) = match r {
         Err(_) => ("panic", String::new(), vec![]),
         Ok(None) => ("err", String::new(), vec![]),
-        Ok(Some((d, g))) => ("ok", d, g),
+        // the description is read from the derived Debug output; if that is ever not recognisable the event says
+        // so ("opaque") and only the byte-level round trip is judged
+        Ok(Some((d, g))) => (if d.contains("gse_len:") && d.contains("pdu:") { "ok" } else { "opaque" }, d, g),
     };
     out.emit(
         &Obj::new()
